@@ -1,6 +1,7 @@
 SPECIFICATION FSpec
 CONSTANTS
   MaxLen = 7
+  ReadSize = 7
   Classes = {"idn"}
   MaxPend = 1
   Threads = {"req"}
